@@ -31,6 +31,7 @@ func c14Alphabet() []tStmt {
 		{Op: "distinct"}, {Op: "count"}, {Op: "limit", N: 2}, {Op: "skip", N: 1}, {Op: "range", N: 0, M: 2},
 		{Op: "aggregate", Aggs: []tAgg{{Name: "a1", Kind: "count"}}},
 		{Op: "aggregate", Aggs: []tAgg{{Name: "a1", Kind: "count"}, {Name: "a1", Kind: "count"}}},
+		{Op: "aggregate", Aggs: []tAgg{}}, // no aggregations: core accepts the step
 	}
 }
 
